@@ -1,10 +1,13 @@
 package c19
 
 import (
+	"context"
 	"fmt"
 	"io"
 	"math/rand"
+	"os"
 	"strings"
+	"syscall"
 )
 
 // Optional interfaces of a writer beside io.Writer (bits of behaviour.Ifs); the names are those of
@@ -22,7 +25,40 @@ const (
 	viaWriteString
 	viaWriteByte
 	viaReadFrom
+	viaFlush
 )
+
+// errKinds are the classes of error VALUES a failing writer returns (behaviour.ErrK; w.errk of
+// spec/Writer.tla): the opaque error of the harness and the values code commonly special-cases.
+var errKinds = []string{"plain", "eintr", "eintr-path", "eagain", "short", "timeout", "ctx", "eof", "closed"}
+
+// flushKinds are the behaviours of the Flush method of a writer that has one (Writer!FlushResult).
+var flushKinds = []string{"nil", "sticky", "fails"}
+
+// errValue makes the error value of failing call idx for class kind.  "plain" and the wrapped classes are
+// values of their own (identity by pointer); the sentinels are the same value at every call.
+func errValue(kind string, idx int) error {
+	path := fmt.Sprintf("/instrumented/writer/call%d", idx)
+	switch kind {
+	case "eintr":
+		return syscall.EINTR
+	case "eintr-path":
+		return &os.PathError{Op: "write", Path: path, Err: syscall.EINTR}
+	case "eagain":
+		return &os.PathError{Op: "write", Path: path, Err: syscall.EAGAIN}
+	case "short":
+		return io.ErrShortWrite
+	case "timeout":
+		return &os.PathError{Op: "write", Path: path, Err: os.ErrDeadlineExceeded}
+	case "ctx":
+		return context.Canceled
+	case "eof":
+		return io.EOF
+	case "closed":
+		return &os.PathError{Op: "write", Path: path, Err: os.ErrClosed}
+	}
+	return &callErr{idx: idx}
+}
 
 // ifaceNames lists the interfaces of a set, in the spelling of the specification.
 func ifaceNames(ifs int) []string {
@@ -44,9 +80,25 @@ func ifaceNames(ifs int) []string {
 type behaviour struct {
 	Mode   string // never | whole | prefix | edge | silent
 	Sticky bool
-	Piece  int // 0: one piece; p>0: re-chunk in pieces of p; -1: random pieces (never mode only)
-	Cap    int // capacity (whole/prefix), per-Write limit (silent), unused (never)
-	Ifs    int // optional interfaces the writer implements beside io.Writer (ifStringWriter | ...)
+	Piece  int    // 0: one piece; p>0: re-chunk in pieces of p; -1: random pieces (never mode only)
+	Cap    int    // capacity (whole/prefix), per-Write limit (silent), unused (never)
+	Ifs    int    // optional interfaces the writer implements beside io.Writer (ifStringWriter | ...)
+	Flush  string // "" : the writer has no Flush method; "nil" | "sticky" | "fails": what its Flush() error returns
+	ErrK   string // class of the error values returned ("" = "plain"; errKinds)
+}
+
+func (b behaviour) flush() string {
+	if b.Flush == "" {
+		return "none"
+	}
+	return b.Flush
+}
+
+func (b behaviour) errk() string {
+	if b.ErrK == "" {
+		return "plain"
+	}
+	return b.ErrK
 }
 
 // key identifies the behaviour of the sink (the interface set is not part of it: the required outcome
@@ -57,7 +109,7 @@ func (b behaviour) key(src int) string {
 
 // fullKey also distinguishes the interface sets.
 func (b behaviour) fullKey(src int) string {
-	return fmt.Sprintf("%s|ifs%d", b.key(src), b.Ifs)
+	return fmt.Sprintf("%s|ifs%d|%s|%s", b.key(src), b.Ifs, b.flush(), b.errk())
 }
 
 // class is the part of a behaviour that goes into a failure signature.
@@ -71,6 +123,12 @@ func (b behaviour) class() string {
 	}
 	if b.Ifs != 0 {
 		s += "@" + strings.Join(ifaceNames(b.Ifs), "+")
+	}
+	if b.Flush != "" {
+		s += "@Flusher:" + b.Flush
+	}
+	if b.errk() != "plain" {
+		s += "/err:" + b.errk()
 	}
 	return s
 }
@@ -96,9 +154,17 @@ type iw struct {
 	sink   []byte // bytes that reached the sink
 	sinkW  int    // Write calls the sink saw
 	log    []call
-	errs   []*callErr
+	errs   []error // the error values returned, errIdx[i] the call that returned errs[i]
+	errIdx []int
 	rng    *rand.Rand
+	// runaway guard: consecutive failing calls that offered the same number of bytes
+	sameFail, sameLen int
 }
+
+// runawayLimit: a wrapper that re-issues a failing Write for ever (a retry loop on a writer that keeps
+// failing) would hang the check; after this many consecutive failing calls of one size the writer panics.
+// From the 64th such call on the calls are counted but not logged.
+const runawayLimit = 20000
 
 func newWriter(b behaviour, sizeHint int, rng *rand.Rand) *iw {
 	return &iw{b: b, cap: b.Cap, sink: make([]byte, 0, sizeHint), rng: rng}
@@ -120,6 +186,9 @@ func (w *iw) sinkWrite(p []byte) (int, bool) {
 		return n, false
 	case w.b.Sticky && w.failed:
 		return 0, true
+	case w.b.Mode == "once" && w.failed: // transient: its one failure is over
+		w.sink = append(w.sink, p...)
+		return len(p), false
 	case w.b.Mode == "edge": // the Write that reaches the capacity reports the error (full count on an exact fit)
 		if len(p) < w.cap {
 			w.sink = append(w.sink, p...)
@@ -176,13 +245,48 @@ func (w *iw) offer(via int, p []byte) (int, error) {
 	c := call{via: via, off: len(p), acc: acc}
 	var err error
 	if fail {
-		e := &callErr{idx: idx}
-		w.errs = append(w.errs, e)
+		err = errValue(w.b.errk(), idx)
+		w.errs, w.errIdx = append(w.errs, err), append(w.errIdx, idx)
 		c.err = idx
-		err = e
+		if w.sameFail > 0 && w.sameLen == len(p) {
+			w.sameFail++
+		} else {
+			w.sameFail, w.sameLen = 1, len(p)
+		}
+		if w.sameFail > runawayLimit {
+			panic(fmt.Sprintf("instrumented writer: %d consecutive failing calls offering %d bytes each (a retry loop that does not end)", w.sameFail, len(p)))
+		}
+		if w.sameFail > 64 {
+			return acc, err
+		}
+	} else {
+		w.sameFail = 0
 	}
 	w.log = append(w.log, c)
 	return acc, err
+}
+
+// flushCall is a call of the writer's Flush method: it offers no bytes; what it returns is the writer's
+// flush behaviour (Writer!FlushResult).  It is logged like every other call.
+func (w *iw) flushCall() error {
+	idx := len(w.log) + 1
+	c := call{via: viaFlush}
+	var err error
+	switch w.b.Flush {
+	case "sticky": // repeats the value of the first failed call (bufio.Writer)
+		if len(w.errs) > 0 {
+			err, c.err = w.errs[0], w.errIdx[0]
+		}
+	case "fails":
+		err = errValue(w.b.errk(), idx)
+		if _, own := err.(*callErr); !own && len(w.errs) > 0 && err == w.errs[0] {
+			err = &callErr{idx: idx} // a sentinel class: keep the Flush error distinguishable from the Write error
+		}
+		w.errs, w.errIdx = append(w.errs, err), append(w.errIdx, idx)
+		c.err = idx
+	}
+	w.log = append(w.log, c)
+	return err
 }
 
 // errIdentity maps the error WriteTo returned to 0 (nil), the index of the
@@ -191,9 +295,9 @@ func (w *iw) errIdentity(err error) int {
 	if err == nil {
 		return 0
 	}
-	for _, e := range w.errs {
-		if error(e) == err {
-			return e.idx
+	for i, e := range w.errs {
+		if e == err {
+			return w.errIdx[i]
 		}
 	}
 	return -1
@@ -204,6 +308,9 @@ type mW struct{ c *iw }
 type mS struct{ c *iw }
 type mB struct{ c *iw }
 type mR struct{ c *iw }
+type mF struct{ c *iw }
+
+func (m mF) Flush() error { return m.c.flushCall() }
 
 func (m mW) Write(p []byte) (int, error)       { return m.c.offer(viaWrite, p) }
 func (m mS) WriteString(s string) (int, error) { return m.c.offer(viaWriteString, []byte(s)) }
@@ -260,9 +367,78 @@ type (
 	}
 )
 
-// asWriter returns c as an io.Writer whose dynamic type has exactly the optional interfaces ifs.
+// ... and the same eight with a Flush() error method
+type (
+	wF struct {
+		mW
+		mF
+	}
+	wSF struct {
+		mW
+		mS
+		mF
+	}
+	wBF struct {
+		mW
+		mB
+		mF
+	}
+	wSBF struct {
+		mW
+		mS
+		mB
+		mF
+	}
+	wRF struct {
+		mW
+		mR
+		mF
+	}
+	wSRF struct {
+		mW
+		mS
+		mR
+		mF
+	}
+	wBRF struct {
+		mW
+		mB
+		mR
+		mF
+	}
+	wSBRF struct {
+		mW
+		mS
+		mB
+		mR
+		mF
+	}
+)
+
+// asWriter returns c as an io.Writer whose dynamic type has exactly the optional interfaces ifs, and a
+// Flush() error method if and only if the behaviour of c has a flush kind.
 func asWriter(c *iw, ifs int) io.Writer {
 	w, s, b, r := mW{c}, mS{c}, mB{c}, mR{c}
+	if c.b.Flush != "" {
+		f := mF{c}
+		switch ifs & ifAll {
+		case 0:
+			return wF{w, f}
+		case ifStringWriter:
+			return wSF{w, s, f}
+		case ifByteWriter:
+			return wBF{w, b, f}
+		case ifStringWriter | ifByteWriter:
+			return wSBF{w, s, b, f}
+		case ifReaderFrom:
+			return wRF{w, r, f}
+		case ifStringWriter | ifReaderFrom:
+			return wSRF{w, s, r, f}
+		case ifByteWriter | ifReaderFrom:
+			return wBRF{w, b, r, f}
+		}
+		return wSBRF{w, s, b, r, f}
+	}
 	switch ifs & ifAll {
 	case 0:
 		return wPlain{w}
@@ -284,13 +460,16 @@ func asWriter(c *iw, ifs int) io.Writer {
 
 // checkMethodSets verifies that asWriter gives each interface set exactly its methods ("" if so).
 func checkMethodSets() string {
-	for ifs := 0; ifs <= ifAll; ifs++ {
-		w := asWriter(&iw{}, ifs)
-		_, s := w.(io.StringWriter)
-		_, b := w.(io.ByteWriter)
-		_, r := w.(io.ReaderFrom)
-		if s != (ifs&ifStringWriter != 0) || b != (ifs&ifByteWriter != 0) || r != (ifs&ifReaderFrom != 0) {
-			return fmt.Sprintf("interface set %v: StringWriter=%v ByteWriter=%v ReaderFrom=%v", ifaceNames(ifs), s, b, r)
+	for _, fl := range []string{"", "nil"} {
+		for ifs := 0; ifs <= ifAll; ifs++ {
+			w := asWriter(&iw{b: behaviour{Flush: fl}}, ifs)
+			_, s := w.(io.StringWriter)
+			_, b := w.(io.ByteWriter)
+			_, r := w.(io.ReaderFrom)
+			_, f := w.(interface{ Flush() error })
+			if s != (ifs&ifStringWriter != 0) || b != (ifs&ifByteWriter != 0) || r != (ifs&ifReaderFrom != 0) || f != (fl != "") {
+				return fmt.Sprintf("interface set %v flush %q: StringWriter=%v ByteWriter=%v ReaderFrom=%v Flusher=%v", ifaceNames(ifs), fl, s, b, r, f)
+			}
 		}
 	}
 	return ""
